@@ -111,6 +111,14 @@ def run(tier):
             decl2 = gen_decl(rng, it, False)
             jobs.append(dict(op='enum', functional=[[('None_' if n == 'None' else n), v] for n, v in decl2], calls=calls_for(rng, decl2, it),
                              decl=[('None_' if n == 'None' else n, v) for n, v in decl2], how='functional-api'))
+        # a hand-written protocol enum whose members carry an extra attribute (custom __new__, the enum HOWTO recipe)
+        declx = gen_decl(rng, 'char', False)
+        bodyx = '\n'.join(f"    {'None_' if n == 'None' else n} = ({v}, 'label-{v}')" for n, v in declx)
+        srcx = ("from enum import IntEnum\nfrom eolib.protocol.protocol_enum_meta import ProtocolEnumMeta\n"
+                "class E(IntEnum, metaclass=ProtocolEnumMeta):\n"
+                "    def __new__(cls, value, label):\n        obj = int.__new__(cls, value)\n        obj._value_ = value\n        obj.label = label\n        return obj\n"
+                f"{bodyx}\n")
+        jobs.append(dict(op='enum', src=srcx, calls=calls_for(rng, declx, 'char'), decl=[('None_' if n == 'None' else n, v) for n, v in declx], how='class-source-custom-new'))
         # the auto-numbered functional API, with and without an explicit start
         for start in (None, 0, 1, rng.randrange(2, 300)):
             nm = rng.sample([n for n in NAMES if n != 'None'], rng.randrange(1, 6))
